@@ -16,7 +16,7 @@ from . import h_solve
 
 
 @register("shave_vs_bc")
-def make_a(model, state="root", D=None):
+def make_a(model, state="root", D=None, decision=None):
     md = h_solve.MODELS[model]
 
     def body(E):
@@ -25,6 +25,8 @@ def make_a(model, state="root", D=None):
         ctx = h_solve.Ctx(E, md, D)
         nd = md["doms"]
         kw = dict(stack_max_height=4 * nd + 8)
+        if decision is not None:
+            kw["decision_domains"] = list(decision)
         s1 = BS.BacktrackSolver(ctx.build(Problem, P), **kw)
         s2 = BS.BacktrackSolver(ctx.build(Problem, P), **kw)
 
@@ -35,7 +37,7 @@ def make_a(model, state="root", D=None):
         def viol(kind, m=None, **kw2):
             if m is None:
                 m = E.model() if E.check() else None
-            v = dict(prop="C10", kind=kind, site=f"shaving/{model}/{state}", cls=None, harness="shave", model=model, state=state)
+            v = dict(prop="C10", kind=kind, site=f"shaving/{model}/{state}", cls=None, harness="shave", model=model, state=state, decision=decision)
             if m is not None:
                 v.update(ctx.witness(m))
             v.update(kw2)
@@ -49,6 +51,9 @@ def make_a(model, state="root", D=None):
                         E.acc.count("root-not-unbound")
                         return
                     d = H.VAR_HEURISTIC_FCTS[H.VAR_HEURISTIC_FIRST_NOT_INSTANTIATED](s.var_heuristic_params, s.decision_domains, s.shr_domains_stack, s.stacks_top)
+                    if int(d) < 0:
+                        E.acc.count("no-decision-domain-left")  # the decision subset does not determine the rest: solve_one refuses
+                        return
                     ev = H.DOM_HEURISTIC_FCTS[H.DOM_HEURISTIC_MIN_VALUE](s.dom_heuristic_params, s.shr_domains_stack, s.not_entailed_propagators_stack, s.dom_update_stack, s.stacks_top, d)
                     P.add_propagators(s.triggered_propagators, s.not_entailed_propagators_stack[s.stacks_top[0]], s.problem.triggers, d, ev)
             top = int(s1.stacks_top[0])
@@ -91,6 +96,25 @@ def make_a(model, state="root", D=None):
         if E.query(z3.And(sem_entry, OR([z3.Or(x[d] < sh[d][0], x[d] > sh[d][1]) for d in range(nd)]))):
             m = E.model()
             viol("solution-shaved-away", m, solution=[E.ev(m, t) for t in vt], shaving=[[E.ev(m, a), E.ev(m, b)] for a, b in sh])
+        # a strengthening of bound consistency: what shaving returns is itself a bound-consistency fixpoint (every successful shave
+        # is followed by a pass, an unsuccessful probe is undone).  The queue need not be empty: undoing a probe re-announces the
+        # probed bound, which wakes constraints that have nothing left to do - a further pass must change nothing.
+        # Not asked for models with affine_eq: it is not idempotent (known finding KF-affine_eq-not-idempotent, C08), so a plain
+        # bound-consistency pass does not end on a fixpoint of it either and a re-woken affine_eq may prune further
+        if any(alg == "affine_eq" for _, alg, _ in md["props"]):
+            return
+        try:
+            st_again = BCA.bound_consistency_algorithm(*args(s1))
+        except Obligation as o:
+            E.acc.count("obligation:" + o.kind)
+            return
+        if st_again == 0:
+            viol("result-is-not-bound-consistent", again="fails")
+        else:
+            again = [(as_z3int(s1.shr_domains_stack[top, d, 0]), as_z3int(s1.shr_domains_stack[top, d, 1])) for d in range(nd)]
+            if E.query(OR([z3.Or(a != c, b != d_) for (a, b), (c, d_) in zip(sh, again)])):
+                m = E.model()
+                viol("result-is-not-bound-consistent", m, shaving=[[E.ev(m, a), E.ev(m, b)] for a, b in sh], again=[[E.ev(m, a), E.ev(m, b)] for a, b in again])
         if E.check():
             m = E.model()
             E.acc.sample(dict(model=model, state=state, **ctx.witness(m), shaving=[[E.ev(m, a), E.ev(m, b)] for a, b in sh], bc=[[E.ev(m, a), E.ev(m, b)] for a, b in bc]))
